@@ -11,13 +11,14 @@ it is an exact integer."""
 import json
 from fractions import Fraction
 from vlib import sx, Sym, parse_sx, try_parse, cps
+import lexcheck
 
 TRUSTED_BASE = [
     'Coq 8.16.1 kernel (all C08 theorems are by induction; vm_compute only in the Example C08_all_levels and in the cross-sample of the extracted model)',
     'extraction ExtrOcamlBasic -> OCaml 4.13.1, modelrun/driver.ml; cross-checked against vm_compute on a sample',
     'harness/src/bin/h_lang.rs and /repo/core/src/verif_hooks/lang.rs (dump of lexer tokens, of the AST and of the ParseError variant; the completion of missing open parentheses is copied from eval.rs::evaluate_to_value and cross-checked at L2)',
     'hand-written model coq/Lang/Parser.v tied to core/src/parser.rs only by this differential run',
-    'the lexer is not modelled: the theorems speak about token streams; that the text printed by this check lexes to the tokens of Coq [pr] is checked on every case',
+    'the lexer is modelled in coq/Lex (C08Lex: the printed text of the operator class lexes to exactly its tokens, C08_lex_precedence_text lifts C08_precedence from token streams to text) with parse_number as an oracle (number atoms abstract); its spacing side conditions are evaluated by the extracted code on every generated text',
     'this file: printers, precedence-climbing reference parser and reference evaluator',
 ]
 ASSUMPTIONS = [
@@ -626,19 +627,11 @@ def check(c):
               'full parentheses and random operator spellings/spacing; non-trivial = at least two operators; distinct by printed text. '
               '(b) heuristics corpus + token soup over the full token alphabet (impl vs model only); non-trivial = lexes and has >= 3 tokens. '
               '(c) value trees over small integers, one bound variable, units: evaluate(min) vs evaluate(full) vs exact reference when integer.')
-    ok = c.proof(['C08'], extra_targets=['Extract/XLang.vo'])
+    ok = c.proof(['C08', 'C08Lex'], extra_targets=['Extract/XLang.vo', 'Extract/XLex.vo'])
     if c.tier == 'thorough' and ok:
-        # the fresh rebuild copies git-tracked files only: run it when every
-        # file named in coq/_CoqProject is tracked (otherwise the shared tree
-        # is mid-integration and the rebuild cannot succeed for any property)
-        import subprocess, os, vlib
-        tracked = set(subprocess.run(['git', '-C', vlib.ROOT, 'ls-files', 'coq'], stdout=subprocess.PIPE).stdout.decode().split())
-        listed = ['coq/' + l.strip() for l in open(os.path.join(vlib.COQ, '_CoqProject')) if l.strip().endswith('.v')]
-        missing = [f for f in listed if f not in tracked and '/Generated/' not in f]
-        if not missing:
-            c.thorough_proof(['C08'])
-        else:
-            c.notes.append('thorough_proof (fresh rebuild + coqchk) skipped: not committed yet: ' + ' '.join(missing[:6]))
+        c.thorough_proof(['C08', 'C08Lex'])
+    # printed operator texts lex to exactly their tokens (C08Lex side conditions evaluated per text)
+    lexcheck.run(c, ('print',))
     r = c.rng
     pay = learn_payloads(c)
 
